@@ -87,6 +87,13 @@ def generate(rng, tier, index):
     witness = [[] for _ in range(n_sessions)]
     # initial declarations
     for s in range(n_sessions):
+        if rng.random() < 0.12:
+            # padding: singleton-domain integers so that later variables get two-digit ids
+            for _ in range(rng.randint(8, 12) if rng.random() < 0.85 else rng.randint(100, 300)):
+                v = rng.randint(-3, 9)
+                ops.append({"s": s, "op": "int_var", "lo": v, "hi": v})
+                decls[s].append({"t": "i", "lo": v, "hi": v})
+            max_vars += len(decls[s])
         for _ in range(rng.randint(1, max(1, max_vars // 2))):
             r = _decl_ops(rng, s, decls[s], cap)
             if r and len(decls[s]) + len(r[1]) <= max_vars:
